@@ -116,7 +116,6 @@ func rulesC05(c *Ctx) {
 			c.Bad("R1", implName(T)+".Decrypt", 0, "anchor not found")
 			continue
 		}
-		facts := factsFor(dec)
 		// the ciphertext parameter: last []byte parameter
 		var data *ssa.Parameter
 		for _, p := range dec.Params {
@@ -129,50 +128,80 @@ func rulesC05(c *Ctx) {
 			continue
 		}
 		k := 0
-		eachInstr(dec, func(b *ssa.BasicBlock, _ int, in ssa.Instruction) {
-			var x ssa.Value
-			var bounds []ssa.Value
-			switch s := in.(type) {
-			case *ssa.Slice:
-				x = s.X
-				if s.Low != nil {
-					bounds = append(bounds, s.Low)
-				}
-				if s.High != nil {
-					bounds = append(bounds, s.High)
-				}
-			case *ssa.IndexAddr:
-				x = s.X
-				bounds = append(bounds, s.Index) // needs len > index; handled as >= index+... conservatively len >= index+1
-			default:
-				return
+		// the stored bytes may be handed on to private helpers (splitSealed(gcm, data) ...): analyse each
+		// (function, parameter) the ciphertext reaches
+		type fp struct {
+			fn *ssa.Function
+			p  *ssa.Parameter
+		}
+		work := []fp{{dec, data}}
+		seenFP := map[fp]bool{}
+		for len(work) > 0 {
+			cur := work[0]
+			work = work[1:]
+			if seenFP[cur] || len(seenFP) > 12 {
+				continue
 			}
-			if !isByteSlice(x.Type()) {
-				return
-			}
-			if !hasOrigin(Origins(x, FlowOpts{Alias: true}), func(o Origin) bool { return o.Val == ssa.Value(data) }) {
-				return
-			}
-			for _, bd := range bounds {
-				if kv, ok := constInt(bd); ok && kv == 0 {
+			seenFP[cur] = true
+			for _, ci := range Calls(cur.fn) {
+				if ci.Static == nil || ci.Static.Pkg != dec.Pkg || ci.Static.Blocks == nil {
 					continue
 				}
-				k++
-				n1++
-				con := fmt.Sprintf("%s.Decrypt slice #%d of the stored bytes", implName(T), k)
-				okG := lenGuard(facts, b, x, bd)
-				if _, isIdx := in.(*ssa.IndexAddr); isIdx && okG {
-					// index needs a strict bound
-					if kv, ok := constInt(bd); ok {
-						okG = lenGuard(facts, b, x, ssa.Value(constIntValue(dec, kv+1)))
-					} else {
-						okG = false
+				for ai, a := range ci.Common.Args {
+					if ai < len(ci.Static.Params) && isByteSlice(a.Type()) && hasOrigin(Origins(a, FlowOpts{Alias: true}), func(o Origin) bool { return o.Val == ssa.Value(cur.p) }) {
+						work = append(work, fp{ci.Static, ci.Static.Params[ai]})
 					}
 				}
-				c.Check(okG, "R1", con, in.Pos(), "dominated by a length test of the same slice implying the bound",
-					"stored bytes are sliced without a dominating length check implying the bound — a truncated or emptied file panics instead of returning an error")
 			}
-		})
+		}
+		for cur := range seenFP {
+			dec, data := cur.fn, cur.p
+			facts := factsFor(dec)
+			eachInstr(dec, func(b *ssa.BasicBlock, _ int, in ssa.Instruction) {
+				var x ssa.Value
+				var bounds []ssa.Value
+				switch s := in.(type) {
+				case *ssa.Slice:
+					x = s.X
+					if s.Low != nil {
+						bounds = append(bounds, s.Low)
+					}
+					if s.High != nil {
+						bounds = append(bounds, s.High)
+					}
+				case *ssa.IndexAddr:
+					x = s.X
+					bounds = append(bounds, s.Index) // needs len > index; handled as >= index+... conservatively len >= index+1
+				default:
+					return
+				}
+				if !isByteSlice(x.Type()) {
+					return
+				}
+				if !hasOrigin(Origins(x, FlowOpts{Alias: true}), func(o Origin) bool { return o.Val == ssa.Value(data) }) {
+					return
+				}
+				for _, bd := range bounds {
+					if kv, ok := constInt(bd); ok && kv == 0 {
+						continue
+					}
+					k++
+					n1++
+					con := fmt.Sprintf("%s.Decrypt slice #%d of the stored bytes", implName(T), k)
+					okG := lenGuard(facts, b, x, bd)
+					if _, isIdx := in.(*ssa.IndexAddr); isIdx && okG {
+						// index needs a strict bound
+						if kv, ok := constInt(bd); ok {
+							okG = lenGuard(facts, b, x, ssa.Value(constIntValue(dec, kv+1)))
+						} else {
+							okG = false
+						}
+					}
+					c.Check(okG, "R1", con, in.Pos(), "dominated by a length test of the same slice implying the bound",
+						"stored bytes are sliced without a dominating length check implying the bound — a truncated or emptied file panics instead of returning an error")
+				}
+			})
+		}
 	}
 	c.Floor("R1", n1, 4)
 
@@ -189,6 +218,17 @@ func rulesC05(c *Ctx) {
 			con := "nonce of AEAD.Seal in " + fname(f)
 			os := Origins(nonce, FlowOpts{Alias: true})
 			fresh := allOrigins(os, func(o Origin) bool { return o.Kind == "alloc" && o.Val.(ssa.Instruction).Parent() == f })
+			if !fresh {
+				// a private helper that allocates, fills from crypto/rand and reports failure
+				if hc, isCall := resolve(nonce).(*ssa.Extract); isCall {
+					if call, isC := hc.Tuple.(*ssa.Call); isC && hc.Index == 0 {
+						if h := call.Call.StaticCallee(); h != nil && h.Pkg == f.Pkg && helperMakesRandomBuffer(h) && callErrKnownNil(facts, call, ci.Block) {
+							c.OK("R2", con, ci.Pos(), "nonce produced by "+fname(h)+": fresh buffer filled from crypto/rand, its error checked before Seal")
+							continue
+						}
+					}
+				}
+			}
 			if !fresh {
 				c.Bad("R2", con, ci.Pos(), "the nonce buffer is "+originsString(os)+", not allocated by this call — nonces repeat: equal plaintexts give equal stored bytes and GCM loses its guarantees")
 				continue
@@ -438,16 +478,32 @@ func ruleKeyBinding(c *Ctx, encT *types.Named) {
 		return
 	}
 	facts := factsFor(nf)
+	// the key field is found by its role: the []byte field of EncryptFS handed to the cipher as key
+	keyField := ""
+	for _, f := range c.P.PkgFuncs(encPkg) {
+		for _, ci := range Calls(f) {
+			if ci.Method == nil || !strings.HasSuffix(qualObj(ci.Method), "cipherfs.(Cipher)."+ci.Method.Name()) {
+				continue
+			}
+			if n, _ := fieldLoadName(ci.Arg(0)); n != "" {
+				keyField = "encryptfs.EncryptFS." + n
+			}
+		}
+	}
+	if keyField == "" {
+		c.Bad("R3", "key field of EncryptFS", nf.Pos(), "no field of EncryptFS is handed to the cipher as key; cannot certify")
+		return
+	}
 	var hashStore *ssa.Store
 	eachInstr(nf, func(_ *ssa.BasicBlock, _ int, in ssa.Instruction) {
 		if st, ok := in.(*ssa.Store); ok {
-			if fa, ok := st.Addr.(*ssa.FieldAddr); ok && fieldName(fa) == "encryptfs.EncryptFS.hash" {
+			if fa, ok := st.Addr.(*ssa.FieldAddr); ok && fieldName(fa) == keyField {
 				hashStore = st
 			}
 		}
 	})
 	if hashStore == nil {
-		c.Bad("R3", "key material in NewEncryptFS", nf.Pos(), "no store to EncryptFS.hash; cannot certify")
+		c.Bad("R3", "key material in NewEncryptFS", nf.Pos(), "no store to the key field ("+keyField+"); cannot certify")
 		return
 	}
 	os := Origins(hashStore.Val, FlowOpts{})
@@ -480,22 +536,24 @@ func ruleKeyBinding(c *Ctx, encT *types.Named) {
 		c.Bad("R3", "child view key", 0, "anchor not found")
 	} else {
 		okH, okC := false, false
-		eachInstr(cf, func(_ *ssa.BasicBlock, _ int, in ssa.Instruction) {
-			st, ok := in.(*ssa.Store)
-			if !ok {
-				return
-			}
-			fa, ok := st.Addr.(*ssa.FieldAddr)
-			if !ok || !freshBase(fa.X) {
-				return
-			}
-			switch fieldName(fa) {
-			case "encryptfs.EncryptFS.hash":
-				okH = allOrigins(Origins(st.Val, FlowOpts{}), func(o Origin) bool { return o.Kind == "field" && o.Name == "encryptfs.EncryptFS.hash" })
-			case "encryptfs.EncryptFS.Cipher":
-				okC = allOrigins(Origins(st.Val, FlowOpts{}), func(o Origin) bool { return o.Kind == "field" && o.Name == "encryptfs.EncryptFS.Cipher" })
-			}
-		})
+		for _, g := range append([]*ssa.Function{cf}, reachableSamePkg(cf, 2)...) {
+			eachInstr(g, func(_ *ssa.BasicBlock, _ int, in ssa.Instruction) {
+				st, ok := in.(*ssa.Store)
+				if !ok {
+					return
+				}
+				fa, ok := st.Addr.(*ssa.FieldAddr)
+				if !ok || !freshBase(fa.X) {
+					return
+				}
+				switch fieldName(fa) {
+				case keyField:
+					okH = allOrigins(Origins(st.Val, FlowOpts{}), func(o Origin) bool { return o.Kind == "field" && o.Name == keyField })
+				case "encryptfs.EncryptFS.Cipher":
+					okC = allOrigins(Origins(st.Val, FlowOpts{}), func(o Origin) bool { return o.Kind == "field" && o.Name == "encryptfs.EncryptFS.Cipher" })
+				}
+			})
+		}
 		c.Check(okH && okC, "R3", "child view carries the same key and cipher", cf.Pos(), "hash and Cipher copied from the parent view", "a child view does not carry its parent's key and cipher — files written through one cannot be read through the other")
 	}
 	// host id accessor
@@ -843,4 +901,52 @@ func ruleEncryptedWriterClose(c *Ctx, rule string) int {
 		c.Check(ok, rule, "stream writer "+fname(f), f.Pos(), "seal -> write -> close, each error propagated", why)
 	}
 	return n8
+}
+
+// helperMakesRandomBuffer: every return of h with a (possibly) nil error hands
+// out a buffer allocated in h and filled from crypto/rand with the read's error
+// known nil there.
+func helperMakesRandomBuffer(h *ssa.Function) bool {
+	ei := errResultIndex(h.Signature)
+	if h.Blocks == nil || ei < 0 || h.Signature.Results().Len() != 2 {
+		return false
+	}
+	facts := factsFor(h)
+	okAny := false
+	for _, r := range returnsOf(h) {
+		if facts.HoldsOnAllEdges(r.Block(), func(fs factSet) bool { return knownNilIn(fs, r.Results[ei], false) }) {
+			continue
+		}
+		buf := r.Results[1-ei]
+		os := Origins(buf, FlowOpts{Alias: true})
+		if !allOrigins(os, func(o Origin) bool { return o.Kind == "alloc" && o.Val.(ssa.Instruction).Parent() == h }) {
+			return false
+		}
+		filled := false
+		for _, rc := range Calls(h) {
+			if rc.Static == nil || !dominates(rc.Instr, r) {
+				continue
+			}
+			var b ssa.Value
+			switch qualName(rc.Static) {
+			case "io.ReadFull":
+				if isRandReader(rc.Arg(0)) {
+					b = rc.Arg(1)
+				}
+			case "crypto/rand.Read":
+				b = rc.Arg(0)
+			}
+			if b == nil || resolve(b) != resolve(buf) {
+				continue
+			}
+			if call, ok := rc.Instr.(*ssa.Call); ok && callErrKnownNil(facts, call, r.Block()) {
+				filled = true
+			}
+		}
+		if !filled {
+			return false
+		}
+		okAny = true
+	}
+	return okAny
 }
